@@ -443,7 +443,7 @@ add("e3_k14_detect_flush", "", overlay="e3",
 add("e3_k13_trials", "", overlay="e3",
     desc="the four <format>::input_matches trials from the library crate's MIR, slice and reader reference: Err is returned only for an I/O error of the source (prefix request, or a reader error passed on by the trial parser); running out of input (rmp's synthetic UnexpectedEof in marker OR data position), invalid UTF-8, a syntax error, an InvalidData chunker error or no document all mean Ok(false); the MessagePack trial only runs for a collection first byte; the YAML trial looks at a DETECT_LEN = 4 byte prefix; the TOML trial buffers a reader up to exactly 2 MiB (constant evaluated from its MIR) and gives up at or above it",
     bounds="all paths of the four functions; all outcome classes of prefix / from_utf8 / trial parser / chunker", functions=["msgpack::input_matches", "json::input_matches", "yaml::input_matches", "toml::input_matches"],
-    props=["C09", "C12", "C14"], thorough_props=["C02"], timeout=300, mem_gb=4, assumptions=K_ASM[:1] + ["rmp_serde::decode::Error variant order (InvalidMarkerRead = 0, InvalidDataRead = 1), rmp::Marker collection variants 22..27"])
+    props=["C09", "C12", "C14", "C02"], timeout=300, mem_gb=4, assumptions=K_ASM[:1] + ["rmp_serde::decode::Error variant order (InvalidMarkerRead = 0, InvalidDataRead = 1), rmp::Marker collection variants 22..27"])
 add("e3_k8_from_reader", "", overlay="e3",
     desc="yaml::encoding::Encoder::from_reader from the library crate's MIR: the detector is given prefix.unread() where the prefix buffer was filled by io::copy(reader.by_ref().take(DETECT_LEN)) - io::copy loops until Take is exhausted, so four bytes are seen for EVERY windowing of the source - and Encoder::new gets prefix.chain(reader) with the detected encoding; a copy failure is returned as Err",
     bounds="all paths of from_reader (data-flow of the four observable calls)", functions=["yaml::encoding::Encoder::from_reader"],
